@@ -319,80 +319,119 @@ let wr_spec head toks obs =
     with Failure m -> "FAIL malformed-observable " ^ m
 
 (* ------------------------------------------------------------------ wired, with the real address source
-   The address book only decides WHETHER a slot can be filled (at least as many outbound groups as the
-   target); which address is picked is not observed.  Through the ConnMgr script layer: every request
-   gets an address and connects; a remote close is a Disconnect followed by address + connection. *)
-let wa_parse toks =
-  let groups = Hashtbl.create 8 in
-  let bad = ref false in
+   The address manager is an ENVIRONMENT of the ConnMgr model: which address it hands out is not observed.
+   What the script determines is, at each step, U = the number of outbound groups with a known address
+   that has not gone away.  If U >= target every free slot can be filled (a free, usable group exists
+   for it), so the target is owed: o = c = target.  If U < target the group filter may make the target
+   unreachable (by design): the step is "u".  Dial counts are only determined in scripts without Z/D. *)
+type wa_step = WStart | WEnd | WEv of string * bool   (* tag, applies *)
+
+let wa_addr s with_flags =
+  match split_on '.' s, with_flags with
+  | [g; i], false | [g; i; _], true ->
+    (try
+       let g = strict_int g and i = strict_int i in
+       if g < 0 || g > 99 || i < 0 || i > 99 then None
+       else if with_flags then
+         (match split_on '.' s with
+          | [_; _; fl] when String.length fl = 2 && (fl.[0] = 'd' || fl.[0] = 'n') && (fl.[1] = 'f' || fl.[1] = 'r') -> Some (g, i)
+          | _ -> None)
+       else Some (g, i)
+     with _ -> None)
+  | _ -> None
+
+(* returns (bad, star, expected words as (tag option: None = "u", Some tag), for s / events / e) *)
+let wa_plan head toks =
+  let t = head_int head "t" 0 in
+  let known = Hashtbl.create 16 and gone = Hashtbl.create 16 in
+  let bad = ref (t < 1 || t > 8) in
   let rest = Stdlib.List.filter (fun e ->
       if String.length e >= 2 && e.[0] = 'a' then begin
-        (match split_on '.' (String.sub e 1 (String.length e - 1)) with
-         | [g; i; fl] when String.length fl = 2 && (fl.[0] = 'd' || fl.[0] = 'n') && (fl.[1] = 'f' || fl.[1] = 'r') ->
-           (try let g = strict_int g and i = strict_int i in
-              if g < 0 || g > 99 || i < 0 || i > 99 then bad := true else Hashtbl.replace groups g ()
-            with _ -> bad := true)
-         | _ -> bad := true);
+        (match wa_addr (String.sub e 1 (String.length e - 1)) true with
+         | Some (g, i) -> if not (Hashtbl.mem known (g, i)) then Hashtbl.replace known (g, i) ()
+         | None -> bad := true);
         false
       end else true) toks in
-  (Hashtbl.length groups, rest, !bad)
-
-let wa_digest (s : ConnMgr.cst) =
-  Printf.sprintf "o%d/c%d/n%d" (sl s.ConnMgr.conns) (sl s.ConnMgr.conns) (iz s.ConnMgr.dials)
+  let star = Stdlib.List.exists (fun e -> String.length e >= 2 && (e.[0] = 'Z' || e.[0] = 'D')) rest in
+  let usable () =
+    let gs = Hashtbl.create 8 in
+    Hashtbl.iter (fun (g, i) () -> if not (Hashtbl.mem gone (g, i)) then Hashtbl.replace gs g ()) known;
+    Hashtbl.length gs in
+  let xs = ref 0 in
+  let word tag = if usable () >= t then Some tag else None in
+  let first = word "s" in
+  let steps = smap (fun e ->
+      let n = String.length e in
+      let tag =
+        if n >= 2 && e.[0] = 'X' then
+          (match (try Some (strict_int (String.sub e 1 (n - 1))) with _ -> None) with
+           | Some k when k >= 0 -> incr xs; "X"   (* applies whenever the step is owed: live = target >= 1 *)
+           | _ -> "?")
+        else if n >= 2 && (e.[0] = 'Z' || e.[0] = 'D') then
+          (match wa_addr (String.sub e 1 (n - 1)) false with
+           | Some k -> if Hashtbl.mem known k then (Hashtbl.replace gone k (); String.make 1 e.[0]) else "-"
+           | None -> "?")
+        else if n >= 2 && e.[0] = 'B' then
+          (match wa_addr (String.sub e 1 (n - 1)) true with
+           | Some k -> if not (Hashtbl.mem known k) then Hashtbl.replace known k (); "B"
+           | None -> "?")
+        else "?" in
+      (word tag, !xs)) rest in
+  let last = word "e" in
+  (* dial counts are only determined when no address goes away and the target is owed from the start
+     (without Z/D the number of usable groups never decreases) *)
+  let star = star || first = None in
+  (!bad, star, t, first, steps, last, !xs)
 
 let wa_model head toks =
-  let t = head_int head "t" 0 and mf = head_int head "mf" 0 in
-  let (ng, rest, bad) = wa_parse toks in
-  if bad || t < 1 || t > 8 then "BAD-INPUT"
-  else if ng < t then "UNDERDETERMINED"
-  else begin
-    let x = ref (ConnMgr.sinit (zi t) (zi mf) true) in
-    let seq = ref 0 in
-    let app ev = let (x', ok) = ConnMgr.sstep !x ev in x := x'; ok in
-    let connect () = incr seq; let a = zi !seq in if app (ConnMgr.SG a) then ignore (app (ConnMgr.SK a)) in
-    for _ = 1 to t do connect () done;
-    let out = ref [ "s:" ^ wa_digest (ConnMgr.core !x) ] in
-    Stdlib.List.iter (fun e ->
-        let tag =
-          if String.length e >= 2 && e.[0] = 'X' then
-            (match (try Some (strict_int (String.sub e 1 (String.length e - 1))) with _ -> None) with
-             | Some k when k >= 0 -> if app (ConnMgr.SD (zi k)) then (connect (); "X") else "-"
-             | _ -> "?")
-          else "?" in
-        out := (tag ^ ":" ^ wa_digest (ConnMgr.core !x)) :: !out) rest;
-    out := ("e:" ^ wa_digest (ConnMgr.core !x)) :: !out;
-    join " " (Stdlib.List.rev !out)
+  let (bad, star, t, first, steps, last, xs) = wa_plan head toks in
+  if bad then "BAD-INPUT" else begin
+    let w tag n = match tag with
+      | None -> "u"
+      | Some tg -> Printf.sprintf "%s:o%d/c%d/n%s" tg t t (if star then "*" else string_of_int (t + n)) in
+    join " " ([ w first 0 ] @ smap (fun (tg, n) -> w tg n) steps @ [ w last xs ])
   end
 
-(* oracle: with an address book that offers at least as many outbound groups as the target, the
-   manager reaches TargetOutbound and is back at TargetOutbound after every remote close *)
+(* oracle: whenever the known, not departed addresses offer at least as many outbound groups as the
+   target, the manager is (back) at TargetOutbound within the bound - and the address manager answers *)
 let wa_spec head toks obs =
-  let t = head_int head "t" 0 in
-  let (ng, rest, bad) = wa_parse toks in
-  if obs = "BAD-INPUT" then (if bad || t < 1 || t > 8 then "OK" else "FAIL malformed-observable")
-  else if obs = "UNDERDETERMINED" then (if ng < t then "OK" else "FAIL malformed-observable")
+  let (bad, _, t, first, steps, last, _) = wa_plan head toks in
+  if obs = "BAD-INPUT" then (if bad then "OK" else "FAIL malformed-observable")
   else
     let ws = words obs in
-    if sl ws <> sl rest + 2 then
+    let plan = [ first ] @ smap fst steps @ [ last ] in
+    if sl ws <> sl plan then
       (if sl ws >= 1 && Stdlib.List.hd ws = "LIMITS" then "FAIL case-limits-differ the case names another threshold than the compiled one"
+       else if sl ws >= 1 && (Stdlib.List.hd ws = "CHILD-TIMEOUT" || Stdlib.List.hd ws = "CHILD-FAILED")
+       then "FAIL outbound-target-not-reached the case did not finish within the hard limit of its child process: " ^ obs
        else "FAIL malformed-observable word count")
     else
       try
         let res = ref "OK" in
-        Stdlib.List.iteri (fun idx w ->
-            if !res = "OK" then
-              match Stdlib.String.index_opt w ':' with
-              | None -> failwith "word"
-              | Some i ->
-                let d = String.sub w (i + 1) (String.length w - i - 1) in
-                (match split_on '/' d with
-                 | [o; c; _] ->
-                   let num s = strict_int (String.sub s 1 (String.length s - 1)) in
-                   (match int_of_nat (ConnMgr.cm_check (zi t) (zi (num o)) (zi 0) (zi 0) (zi 0)) with
-                    | 0 -> if num c <> num o then res := Printf.sprintf "FAIL connected-differs-from-open step %d: %s" idx d
-                    | 1 -> res := Printf.sprintf "FAIL above-target step %d: %s" idx d
-                    | _ -> res := Printf.sprintf "FAIL outbound-target-not-reached step %d: %s (target %d, %d outbound groups on offer): the manager did not get back to the target within the bound" idx d t ng)
-                 | _ -> failwith "digest")) ws;
+        Stdlib.List.iteri (fun idx (w, owed) ->
+            if !res = "OK" then begin
+              let blocked =
+                let sfx = "/ADDRMGR-BLOCKED" in
+                let ls = String.length sfx and lw = String.length w in
+                lw >= ls && String.sub w (lw - ls) ls = sfx in
+              if blocked then
+                res := Printf.sprintf "FAIL outbound-target-not-reached step %d: %s - ADDRMGR-BLOCKED: a call into the address manager (GetAddress / AddAddresses / NeedMoreAddresses) does not return, the manager can never dial again" idx w
+              else match owed with
+                | None -> if w <> "u" then failwith "expected u"
+                | Some _ ->
+                  (match Stdlib.String.index_opt w ':' with
+                   | None -> failwith "word"
+                   | Some i ->
+                     let d = String.sub w (i + 1) (String.length w - i - 1) in
+                     (match split_on '/' d with
+                      | [o; c; _] ->
+                        let num s = strict_int (String.sub s 1 (String.length s - 1)) in
+                        (match int_of_nat (ConnMgr.cm_check (zi t) (zi (num o)) (zi 0) (zi 0) (zi 0)) with
+                         | 0 -> if num c <> num o then res := Printf.sprintf "FAIL connected-differs-from-open step %d: %s" idx d
+                         | 1 -> res := Printf.sprintf "FAIL above-target step %d: %s" idx d
+                         | _ -> res := Printf.sprintf "FAIL outbound-target-not-reached step %d: %s (target %d): the manager did not get back to the target within the bound" idx d t)
+                      | _ -> failwith "digest"))
+            end) (Stdlib.List.combine ws plan);
         !res
       with Failure m -> "FAIL malformed-observable " ^ m
 
